@@ -153,10 +153,17 @@ class ModelsOps:
         if isinstance(l, NotImplV) or isinstance(r, NotImplV):
             return isinstance(l, NotImplV) and isinstance(r, NotImplV)
         if type(l) is not type(r):
+            if {type(l), type(r)} == {ConvV, ObjV}:
+                return bool(self.I.choose(2, f"converter-identity@{getattr(node, 'lineno', '?')}", ["different", "same"]))
             if isinstance(l, OpaqueV) or isinstance(r, OpaqueV):
                 return bool(self.I.choose(2, f"is@{getattr(node, 'lineno', '?')}", ["different", "same"]))
             return False
-        if isinstance(l, (QtyV, TermV, RateV, ObjV, ListV, ConvV)):
+        if isinstance(l, ConvV) or (isinstance(l, ObjV) and isinstance(r, ConvV)) or \
+                (isinstance(l, ConvV) and isinstance(r, ObjV)):
+            if l is r:
+                return True
+            return bool(self.I.choose(2, f"converter-identity@{getattr(node, 'lineno', '?')}", ["different", "same"]))
+        if isinstance(l, (QtyV, TermV, RateV, ObjV, ListV)):
             return l is r
         if isinstance(l, EnumV):
             return l.member == r.member
